@@ -1,0 +1,304 @@
+//! Child module of `crate::benchmark` (only with `--cfg divan_verif`): builds
+//! `Bencher`s over chosen options and exposes the crate-private results.
+
+use std::num::{NonZeroU64, NonZeroUsize};
+
+use super::*;
+use crate::{
+    __verif::alloc::TallyView,
+    config::Action,
+    counter::{BytesCount, CharsCount, CyclesCount, ItemsCount},
+    time::Timer,
+    tree_painter::{TreeColumn, TreePainter},
+    util::thread::ThreadPool,
+};
+
+/// The action a context performs.
+#[derive(Clone, Copy, Debug, PartialEq, Eq)]
+pub enum VAction {
+    Bench,
+    Test,
+    List,
+    ListTerse,
+}
+
+impl VAction {
+    pub(crate) fn to_action(self) -> Action {
+        match self {
+            Self::Bench => Action::Bench,
+            Self::Test => Action::Test,
+            Self::List => Action::List,
+            Self::ListTerse => Action::ListTerse,
+        }
+    }
+}
+
+/// Owns a `SharedContext` (action, timer and thread pool).
+pub struct Ctx {
+    shared: SharedContext,
+}
+
+impl Ctx {
+    /// `tsc_frequency = None` uses the OS timer.
+    pub fn new(action: VAction, tsc_frequency: Option<u64>) -> Self {
+        let timer = match tsc_frequency {
+            None => Timer::Os,
+            Some(frequency) => Timer::Tsc {
+                frequency: NonZeroU64::new(frequency)
+                    .expect("frequency must be non-zero"),
+            },
+        };
+        Self {
+            shared: SharedContext {
+                action: action.to_action(),
+                timer,
+                thread_pool: ThreadPool::new(),
+            },
+        }
+    }
+
+    /// Creates the `BenchContext` a benchmark function would be handed.
+    pub fn start<'a>(
+        &'a self,
+        options: &'a BenchOptions<'a>,
+        thread_count: usize,
+    ) -> Run<'a> {
+        Run {
+            context: BenchContext::new(
+                &self.shared,
+                options,
+                NonZeroUsize::new(thread_count)
+                    .expect("thread count must be non-zero"),
+            ),
+        }
+    }
+}
+
+/// A `BenchContext` under construction or after a run.
+pub struct Run<'a> {
+    context: BenchContext<'a>,
+}
+
+/// What a run recorded.
+#[derive(Clone, Debug, Default)]
+pub struct RunView {
+    pub did_run: bool,
+    pub thread_count: usize,
+    pub sample_size: u32,
+    /// Recorded sample durations in picoseconds, in recording order.
+    pub durations: Vec<u128>,
+    /// `(sample index, tally)` sorted by index.
+    pub alloc_by_sample: Vec<(u32, TallyView)>,
+    /// Recorded counts per `KnownCounterKind::ALL`.
+    pub counts: [Vec<u64>; 4],
+    pub uses_input_counts: [bool; 4],
+}
+
+/// Plain-data copy of `Stats`. Sets are `[fastest, slowest, median, mean]`.
+#[derive(Clone, Debug, PartialEq)]
+pub struct StatsView {
+    pub sample_count: u32,
+    pub iter_count: u64,
+    pub time: [u128; 4],
+    pub max_alloc_count: [f64; 4],
+    pub max_alloc_size: [f64; 4],
+    /// Indexed by grow, shrink, alloc, dealloc; each `(count, size)`.
+    pub alloc_tallies: [([f64; 4], [f64; 4]); 4],
+    /// Indexed by `KnownCounterKind::ALL`.
+    pub counts: [Option<[u64; 4]>; 4],
+}
+
+fn set4<T: Copy>(set: &StatsSet<T>) -> [T; 4] {
+    [set.fastest, set.slowest, set.median, set.mean]
+}
+
+impl<'a> Run<'a> {
+    /// The `Bencher` a benchmark function would receive.
+    pub fn bencher<'r>(&'r mut self) -> Bencher<'r, 'a> {
+        Bencher::new(&mut self.context)
+    }
+
+    pub fn view(&self) -> RunView {
+        let samples = &self.context.samples;
+        let mut alloc_by_sample: Vec<(u32, TallyView)> = samples
+            .alloc_info_by_sample
+            .iter()
+            .map(|(&index, info)| (index, TallyView::of(info)))
+            .collect();
+        alloc_by_sample.sort_by_key(|(index, _)| *index);
+
+        RunView {
+            did_run: self.context.did_run,
+            thread_count: self.context.thread_count.get(),
+            sample_size: samples.sample_size,
+            durations: samples
+                .time_samples
+                .iter()
+                .map(|s| s.duration.picos)
+                .collect(),
+            alloc_by_sample,
+            counts: KnownCounterKind::ALL.map(|kind| {
+                self.context
+                    .counters
+                    .counts(kind)
+                    .iter()
+                    .map(|&c| c as u64)
+                    .collect()
+            }),
+            uses_input_counts: KnownCounterKind::ALL
+                .map(|kind| self.context.counters.uses_input_counts(kind)),
+        }
+    }
+
+    /// Replaces the recorded data, as if the loop had recorded it.
+    ///
+    /// `counts[k]` is `None` for "no counter of that kind", `Some((false,
+    /// [c]))` for a constant counter and `Some((true, per_sample))` for an
+    /// input counter with one per-iteration value per sample.
+    pub fn inject(
+        &mut self,
+        sample_size: u32,
+        durations: &[u128],
+        alloc_by_sample: &[(u32, TallyView)],
+        counts: &[Option<(bool, Vec<u64>)>; 4],
+    ) {
+        self.context.did_run = true;
+
+        let samples = &mut self.context.samples;
+        samples.sample_size = sample_size;
+        samples.time_samples = durations
+            .iter()
+            .map(|&picos| TimeSample { duration: FineDuration { picos } })
+            .collect();
+        samples.alloc_info_by_sample = alloc_by_sample
+            .iter()
+            .map(|(index, tally)| (*index, tally.to_info()))
+            .collect();
+
+        let mut counters = CounterCollection::default();
+        for (kind, spec) in KnownCounterKind::ALL.into_iter().zip(counts) {
+            let Some((per_input, values)) = spec else { continue };
+            if *per_input {
+                match kind {
+                    KnownCounterKind::Bytes => counters
+                        .set_input_counter(|_: &()| BytesCount::new(0u8)),
+                    KnownCounterKind::Chars => counters
+                        .set_input_counter(|_: &()| CharsCount::new(0u8)),
+                    KnownCounterKind::Cycles => counters
+                        .set_input_counter(|_: &()| CyclesCount::new(0u8)),
+                    KnownCounterKind::Items => counters
+                        .set_input_counter(|_: &()| ItemsCount::new(0u8)),
+                }
+            }
+            for &value in values {
+                counters.push_counter(AnyCounter::known(kind, value as _));
+            }
+        }
+        self.context.counters = counters;
+    }
+
+    /// `BenchContext::compute_stats`.
+    pub fn compute_stats(&self) -> StatsView {
+        stats_view(&self.context.compute_stats())
+    }
+
+    /// Paints one leaf row exactly as the runner does for a benchmark that
+    /// ran in bench mode: `start_leaf`, `compute_stats`, `finish_leaf`, all to
+    /// the process's stdout. Returns the computed statistics.
+    pub fn paint_leaf(
+        &self,
+        name: &str,
+        is_last: bool,
+        max_name_span: usize,
+        binary_bytes: bool,
+    ) -> StatsView {
+        let mut column_widths = [0; TreeColumn::COUNT];
+        for column in TreeColumn::ALL {
+            if column.is_time_stat() {
+                column_widths[column as usize] =
+                    KnownCounterKind::MAX_COMMON_COLUMN_WIDTH;
+            } else if !column.is_last() {
+                column_widths[column as usize] = 3;
+            }
+        }
+        let mut painter = TreePainter::new(max_name_span, column_widths);
+        painter.start_leaf(name, is_last);
+        let stats = self.context.compute_stats();
+        painter.finish_leaf(
+            is_last,
+            &stats,
+            crate::__verif::pure::bytes_format(binary_bytes),
+        );
+        stats_view(&stats)
+    }
+}
+
+fn stats_view(stats: &Stats) -> StatsView {
+    StatsView {
+        sample_count: stats.sample_count,
+        iter_count: stats.iter_count,
+        time: set4(&stats.time).map(|d| d.picos),
+        max_alloc_count: set4(&stats.max_alloc.count),
+        max_alloc_size: set4(&stats.max_alloc.size),
+        alloc_tallies: AllocOp::ALL.map(|op| {
+            let tally = stats.alloc_tallies.get(op);
+            (set4(&tally.count), set4(&tally.size))
+        }),
+        counts: KnownCounterKind::ALL.map(|kind| {
+            stats.get_counts(kind).map(|set| set4(set).map(|c| c as u64))
+        }),
+    }
+}
+
+/// The effective options a benchmark body was handed.
+#[derive(Clone, Debug, PartialEq)]
+pub struct OptionsView {
+    pub sample_count: Option<u32>,
+    pub sample_size: Option<u32>,
+    pub threads: Option<Vec<usize>>,
+    /// Indexed by `KnownCounterKind::ALL` (bytes, chars, cycles, items).
+    pub counters: [Option<u64>; 4],
+    pub min_time: Option<std::time::Duration>,
+    pub max_time: Option<std::time::Duration>,
+    pub skip_ext_time: Option<bool>,
+    pub ignore: Option<bool>,
+    /// The thread count of this particular run.
+    pub thread_count: usize,
+    pub is_test: bool,
+    pub is_bench: bool,
+    /// Counts currently held by the context's counter collection, indexed by
+    /// `KnownCounterKind::ALL`.
+    pub collection_counts: [Vec<u64>; 4],
+}
+
+pub(crate) fn options_view(options: &BenchOptions) -> OptionsView {
+    OptionsView {
+        sample_count: options.sample_count,
+        sample_size: options.sample_size,
+        threads: options.threads.as_deref().map(|t| t.to_vec()),
+        counters: KnownCounterKind::ALL
+            .map(|kind| options.counters.get(kind).map(|c| c as u64)),
+        min_time: options.min_time,
+        max_time: options.max_time,
+        skip_ext_time: options.skip_ext_time,
+        ignore: options.ignore,
+        thread_count: 0,
+        is_test: false,
+        is_bench: false,
+        collection_counts: Default::default(),
+    }
+}
+
+/// Returns what `bencher` was configured with by the runner.
+pub fn bencher_view<C>(bencher: &Bencher<'_, '_, C>) -> OptionsView {
+    let context = &*bencher.context;
+    OptionsView {
+        thread_count: context.thread_count.get(),
+        is_test: context.shared_context.action.is_test(),
+        is_bench: context.shared_context.action.is_bench(),
+        collection_counts: KnownCounterKind::ALL.map(|kind| {
+            context.counters.counts(kind).iter().map(|&c| c as u64).collect()
+        }),
+        ..options_view(context.options)
+    }
+}
